@@ -260,14 +260,14 @@ def disturbed(kind, n, step, fault, follow="upload"):
     sx.reach("follow-up")
 
 
-def stale_before(kind, n):
-    """a stale frame sits in the client's queue before the request is sent: it must be discarded"""
+def stale_before(kind, n, k=1):
+    """k stale frames sit in the client's queue before the request is sent: they must be discarded"""
     ms = MultiServer()
     rig = FaultRig(ms, -1, None)
     idx = sx.fresh_int("idx", 0, 0xFFFF)
     sub = sx.fresh_int("sub", 0, 0xFF)
-    stale = sx.fresh_bytes("stale", 8)
-    rig.client.on_response(rig.client.tx_cobid, stale, 0.0)
+    for i in range(k):
+        rig.client.on_response(rig.client.tx_cobid, sx.fresh_bytes("stale%d" % i, 8), 0.0)
     payload = sx.fresh_bytes("p", n)
     value = sx.fresh_bytes("v", n)
     res = _run(rig, ms, kind, n, idx, sub, payload, value)
@@ -349,7 +349,8 @@ def jobs(tier):
                                 weight=n + 5))
     for kind in ("upload", "download"):
         for n in (3, 9):
-            out.append(dict(func="stale_before", params=dict(kind=kind, n=n), weight=50))
+            for k in (1, 2, 3):
+                out.append(dict(func="stale_before", params=dict(kind=kind, n=n, k=k), weight=50))
     for fault in ("drop", "toggle", "scs"):
         for step in range(0, 4):
             out.append(dict(func="real_server_followup", params=dict(fault=fault, step=step)))
